@@ -245,6 +245,29 @@ func (tr *FnTrans) applyContractEnv(fc *FuncContract, name string, sig *types.Si
 	// effects
 	if fc.ModAll {
 		tr.havocAll()
+	} else if fc.ModHeap {
+		// everything program-visible is havoced, ghost state only as listed
+		ghosts := map[string]string{}
+		for c := range vc.compSort {
+			if strings.HasPrefix(c, "G$") {
+				ghosts[c] = vc.hget(tr.cur, c)
+			}
+		}
+		var targets []modTarget
+		for _, m := range fc.Modifies {
+			targets = append(targets, tr.modTargets(ec, m)...)
+		}
+		tr.havocAll()
+		for c, v := range ghosts {
+			tr.cur.m[c] = v
+		}
+		var gts []modTarget
+		for _, t := range targets {
+			if strings.HasPrefix(t.comp, "G$") {
+				gts = append(gts, t)
+			}
+		}
+		tr.applyMods(gts)
 	} else {
 		var targets []modTarget
 		for _, m := range fc.Modifies {
